@@ -66,6 +66,7 @@ func c04(c *core.Check) {
 	c04fieldListsChecked(c)
 	c04languagesValidatedFirst(c)
 	c04includeSearch(c)
+	c04fieldDefaults(c)
 	c04E4(c, inv, fns, parent)
 	c04E5(c, fns)
 	c04E6(c, reach)
@@ -212,6 +213,13 @@ var c04Ignored = map[string]string{
 }
 
 func c04E3(c *core.Check, fns []*ssa.Function) {
+	errorsConsumed(c, fns, "E3-error-consumed")
+	c.Min("E3-error-consumed", 150)
+}
+
+// errorsConsumed: every error result of a call into the repository (or of a tabled library source) has a use that reaches
+// a test, return, panic, store or call.
+func errorsConsumed(c *core.Check, fns []*ssa.Function, rule string) {
 	prog := c.Prog
 	n := map[string]int{}
 	for _, fn := range fns {
@@ -295,16 +303,15 @@ func c04E3(c *core.Check, fns []*ssa.Function) {
 			}
 			if !live {
 				if why, ok := c04Ignored[base]; ok {
-					c.OK("E3-error-consumed", key, prog.Rel(cl.Pos()), "ignored by design: "+why)
+					c.OK(rule, key, prog.Rel(cl.Pos()), "ignored by design: "+why)
 					return
 				}
 			}
-			c.Decide(live, "E3-error-consumed", key, prog.Rel(cl.Pos()),
+			c.Decide(live, rule, key, prog.Rel(cl.Pos()),
 				"the error result has a use that reaches a test, return, panic, store or call",
 				"the error result of "+name+" is dropped or overwritten before any use: a diagnosed failure is lost")
 		})
 	}
-	c.Min("E3-error-consumed", 150)
 }
 
 // ssaLive: v has a use other than pure forwarding nodes that are themselves unused.
@@ -636,6 +643,39 @@ func c04E6(c *core.Check, reach map[*ssa.Function]bool) {
 			chasers = append(chasers, fn)
 		}
 	}
+	// mutual recursion: a function that calls GetTypedef and can reach itself through other repository functions
+	// (getTypeName -> getContainerTypeName -> getTypeName) chases typedef links just the same
+	isChaser := map[*ssa.Function]bool{}
+	for _, ch := range chasers {
+		isChaser[ch] = true
+	}
+	for fn := range reach {
+		if !core.InRepo(fn) || fn.Syntax() == nil || isChaser[fn] {
+			continue
+		}
+		getTD := false
+		var callees []*ssa.Function
+		if n := g.Nodes[fn]; n != nil {
+			for _, e := range n.Out {
+				cf := e.Callee.Func
+				if cf == nil {
+					continue
+				}
+				if cf.Name() == "GetTypedef" && cf.Pkg != nil && cf.Pkg.Pkg.Path() == core.Module+"/parser" {
+					getTD = true
+				} else if core.InRepo(cf) {
+					callees = append(callees, cf)
+				}
+			}
+		}
+		if !getTD || len(callees) == 0 {
+			continue
+		}
+		if prog.Reach(callees, func(f *ssa.Function) bool { return !core.InRepo(f) })[fn] {
+			chasers = append(chasers, fn)
+			isChaser[fn] = true
+		}
+	}
 	sort.Slice(chasers, func(i, j int) bool { return core.FuncName(chasers[i]) < core.FuncName(chasers[j]) })
 	c.Analysed["typedef_chasers"] = len(chasers)
 	// which call sites inside ResolveAST (and its closures) can reach a chaser, and are they after ResolveTypedefs?
@@ -695,11 +735,109 @@ func c04E6(c *core.Check, reach map[*ssa.Function]bool) {
 			"unbounded recursion over typedef links on cyclic input (stack overflow instead of a diagnostic): "+bad)
 	}
 	c.Min("E6-guarded-recursion", 2)
+	// The discharge "typedef cycles already rejected by ResolveTypedefs" holds only if that stage rejects every cycle an
+	// expansion can run into: a typedef reaches itself not only through other typedefs but also through the element types
+	// of containers (`typedef list<A> A`). Rule: among the functions ResolveTypedefs calls inside the package there is one
+	// that follows typedef names (GetTypedef), descends into KeyType/ValueType, keeps a set keyed by *parser.Typedef that it
+	// both reads and writes, and returns an error.
+	rt := prog.FuncDecl("semantic", "resolver.ResolveTypedefs")
+	key := "semantic.(resolver).ResolveTypedefs/cycles-through-containers"
+	if rt == nil {
+		c.Unknown("E6-typedef-cycles-rejected", key, "", "ResolveTypedefs missing")
+		return
+	}
+	seen := map[string]bool{}
+	work := []*ast.FuncDecl{rt}
+	found := ""
+	for len(work) > 0 && found == "" {
+		d := work[0]
+		work = work[1:]
+		if seen[d.Name.Name] {
+			continue
+		}
+		seen[d.Name.Name] = true
+		getTD, elems, setRead, setWrite, errRet := false, false, false, false, false
+		ast.Inspect(d.Body, func(n ast.Node) bool {
+			switch x := n.(type) {
+			case *ast.CallExpr:
+				if fo := rules.Callee(info, x); fo != nil {
+					if fo.Name() == "GetTypedef" {
+						getTD = true
+					}
+					if fo.Pkg() != nil && fo.Pkg().Path() == "fmt" && fo.Name() == "Errorf" {
+						errRet = true
+					}
+					if fo.Pkg() == prog.Pkg("semantic").Types {
+						name := fo.Name()
+						if sig, ok := fo.Type().(*types.Signature); ok && sig.Recv() != nil {
+							name = "resolver." + name
+						}
+						if nd := prog.FuncDecl("semantic", name); nd != nil && nd.Body != nil {
+							work = append(work, nd)
+						}
+					}
+				}
+			case *ast.SelectorExpr:
+				if x.Sel.Name == "KeyType" || x.Sel.Name == "ValueType" {
+					elems = true
+				}
+			case *ast.AssignStmt:
+				for _, l := range x.Lhs {
+					if ix, ok := l.(*ast.IndexExpr); ok && isTypedefKeyedMap(info, ix.X) {
+						setWrite = true
+					}
+				}
+			case *ast.IndexExpr:
+				if isTypedefKeyedMap(info, x.X) {
+					setRead = true
+				}
+			}
+			return true
+		})
+		if getTD && elems && setRead && setWrite && errRet {
+			found = d.Name.Name
+		}
+	}
+	c.Decide(found != "", "E6-typedef-cycles-rejected", key, prog.Rel(rt.Pos()),
+		"typedef cycles through container element types are rejected by "+found+" (visited set keyed by typedef, error on revisit)",
+		"nothing ResolveTypedefs calls follows typedef names *and* container element types with a visited set: `typedef list<A> A` passes the semantic stage, and every expansion of typedefs behind it (type names for tags, Deref) recurses until the stack overflows — thriftgo dies with a fatal-error trace instead of a diagnostic")
+}
+
+func isTypedefKeyedMap(info *types.Info, e ast.Expr) bool {
+	tv, ok := info.Types[e]
+	if !ok {
+		return false
+	}
+	m, ok := tv.Type.Underlying().(*types.Map)
+	return ok && strings.HasSuffix(m.Key().String(), "parser.Typedef")
 }
 
 // hasOwnBound: the function has a map-typed parameter that it both reads and updates (visited set),
 // or an integer parameter it compares and passes on changed (depth bound).
 func hasOwnBound(fn *ssa.Function) bool {
+	// closures that recurse through each other share their visited set as a captured variable of the enclosing function
+	if par := fn.Parent(); par != nil {
+		upd, look := map[string]bool{}, map[string]bool{}
+		for _, af := range par.AnonFuncs {
+			for _, b := range af.Blocks {
+				for _, ins := range b.Instrs {
+					switch x := ins.(type) {
+					case *ssa.MapUpdate:
+						upd[x.Map.Type().String()] = true
+					case *ssa.Lookup:
+						if _, ok := x.X.Type().Underlying().(*types.Map); ok {
+							look[x.X.Type().String()] = true
+						}
+					}
+				}
+			}
+		}
+		for t := range upd {
+			if look[t] {
+				return true
+			}
+		}
+	}
 	for _, p := range fn.Params {
 		switch p.Type().Underlying().(type) {
 		case *types.Map:
